@@ -132,6 +132,7 @@ type runInfo struct {
 	WallS     float64
 	Packages  int
 	Functions int
+	RepoFuncs int
 	CGEdges   int
 	Configs   []string
 	Cmd       string
@@ -185,24 +186,27 @@ func (r *Report) WriteEvidence(verifDir string, meta propMeta, ri runInfo, nviol
 	}
 	sort.Strings(funcs)
 	cov := map[string]any{
-		"explanation":         meta.Explain,
-		"obligations":         total,
-		"discharged":          discharged,
-		"evaluations":         r.Sites,
-		"distinct_nontrivial": nontrivial,
-		"rule":                "obligation = rule x construct resolved through go/types + go/ssa on /repo's working tree; evaluations = program points (instructions, call sites, table rows, literal fields) examined by the rules; an obligation is non-trivial when its discharge needed a witness (dominating guard, path argument, table row, lock set) rather than a constant/instance-floor fact",
-		"samples":             samples,
-		"obligations_by_rule": rules,
-		"all_obligations":     obls,
-		"functions_analysed":  funcs,
-		"packages":            ri.Packages,
-		"ssa_functions":       ri.Functions,
-		"call_graph_edges":    ri.CGEdges,
-		"build_configs":       ri.Configs,
-		"checker_cmd":         ri.Cmd,
-		"trusted_base":        meta.Trusted,
-		"not_decided":         meta.NotDecided,
-		"exhaustive":          false,
+		"explanation":           meta.Explain,
+		"obligations":           total,
+		"discharged":            discharged,
+		"evaluations":           r.Sites,
+		"distinct_nontrivial":   nontrivial,
+		"rule":                  "obligation = rule x construct resolved through go/types + go/ssa on /repo's working tree; evaluations = program points (instructions, call sites, table rows, literal fields) examined by the rules; an obligation is non-trivial when its discharge needed a witness (dominating guard, path argument, table row, lock set) rather than a constant/instance-floor fact",
+		"samples":               samples,
+		"obligations_by_rule":   rules,
+		"all_obligations":       obls,
+		"functions_analysed":    funcs,
+		"packages":              ri.Packages,
+		"repo_functions_loaded": ri.RepoFuncs,
+		"build_configs":         ri.Configs,
+		"checker_cmd":           ri.Cmd,
+		"trusted_base":          meta.Trusted,
+		"not_decided":           meta.NotDecided,
+		"exhaustive":            false,
+	}
+	if ri.Functions > 0 { // a VTA call graph was built for this property
+		cov["call_graph_functions"] = ri.Functions
+		cov["call_graph_edges"] = ri.CGEdges
 	}
 	for k, v := range r.Extra {
 		cov[k] = v
